@@ -160,4 +160,95 @@ theorem fetchLoopCall_state : ∀ (n : Nat) (attempts : List Attempt),
         | error e => rfl
         | ok r => rfl
 
+/-! ## the fallback, characterised -/
+
+/-- a discovery that ends normally ends in the fallback state or in the table of a reply whose error
+    code is 0 -/
+theorem fetchLoop_ok_char : ∀ (n : Nat) (attempts : List Attempt) (st : ApiVersionsState),
+    fetchLoop n attempts = some (.ok st) →
+    st = .legacy ∨ ∃ data vs, Attempt.reply data ∈ attempts ∧ decodeApiVersionsResponse data = .ok (0, vs) ∧ st = .table vs := by
+  intro n
+  induction n with
+  | zero =>
+    intro attempts st h
+    simp only [fetchLoop, handleApiVersionUpdate, Option.some.injEq, Except.ok.injEq] at h
+    left; rw [← h]; decide
+  | succ n ih =>
+    intro attempts st h
+    cases attempts with
+    | nil => simp [fetchLoop] at h
+    | cons a as =>
+      cases a with
+      | unavailable =>
+        simp only [fetchLoop] at h
+        rcases ih as st h with h1 | ⟨data, vs, hm, hd, hs⟩
+        · exact Or.inl h1
+        · exact Or.inr ⟨data, vs, List.mem_cons_of_mem _ hm, hd, hs⟩
+      | reply data =>
+        simp only [fetchLoop] at h
+        cases hd : decodeApiVersionsResponse data with
+        | error e => simp [hd] at h
+        | ok r =>
+          obtain ⟨err, vs⟩ := r
+          simp only [hd, Option.some.injEq, Except.ok.injEq, handleApiVersionUpdate] at h
+          by_cases he : err ≠ 0
+          · left; rw [← h]; simp [he]
+          · have he0 : err = 0 := by omega
+            right
+            refine ⟨data, vs, List.mem_cons_self, by rw [hd, he0], ?_⟩
+            rw [← h]; simp [he]
+
+/-- `k ≤ n` unanswered attempts in a row, as many as the loop allows: the fallback -/
+theorem fetchLoop_all_unavailable : ∀ (n : Nat) (rest : List Attempt),
+    fetchLoop n (List.replicate n .unavailable ++ rest) = some (.ok .legacy) := by
+  intro n
+  induction n with
+  | zero => intro rest; simp [fetchLoop, handleApiVersionUpdate]
+  | succ n ih => intro rest; simpa [List.replicate_succ, fetchLoop] using ih rest
+
+/-- fewer unanswered attempts than the loop allows, then a reply carrying an error code: the fallback -/
+theorem fetchLoop_error_code : ∀ (n k : Nat) (data : Bytes) (err : Int) (vs : List ApiVersion) (rest : List Attempt),
+    k < n → decodeApiVersionsResponse data = .ok (err, vs) → err ≠ 0 →
+    fetchLoop n (List.replicate k .unavailable ++ .reply data :: rest) = some (.ok .legacy) := by
+  intro n
+  induction n with
+  | zero => intro k _ _ _ _ hk; omega
+  | succ n ih =>
+    intro k data err vs rest hk hd he
+    cases k with
+    | zero => simp [fetchLoop, hd, handleApiVersionUpdate, he]
+    | succ k =>
+      simp only [List.replicate_succ, List.cons_append, fetchLoop]
+      exact ih k data err vs rest (by omega) hd he
+
+/-- … and a reply with error code 0: its table -/
+theorem fetchLoop_table : ∀ (n k : Nat) (data : Bytes) (vs : List ApiVersion) (rest : List Attempt),
+    k < n → decodeApiVersionsResponse data = .ok (0, vs) →
+    fetchLoop n (List.replicate k .unavailable ++ .reply data :: rest) = some (.ok (.table vs)) := by
+  intro n
+  induction n with
+  | zero => intro k _ _ _ hk; omega
+  | succ n ih =>
+    intro k data vs rest hk hd
+    cases k with
+    | zero => simp [fetchLoop, hd, handleApiVersionUpdate]
+    | succ k =>
+      simp only [List.replicate_succ, List.cons_append, fetchLoop]
+      exact ih k data vs rest (by omega) hd
+
+/-- … and a reply the decoder rejects: the decoder's exception, no fallback -/
+theorem fetchLoop_garbled : ∀ (n k : Nat) (data : Bytes) (e : Err) (rest : List Attempt),
+    k < n → decodeApiVersionsResponse data = .error e →
+    fetchLoop n (List.replicate k .unavailable ++ .reply data :: rest) = some (.error e) := by
+  intro n
+  induction n with
+  | zero => intro k _ _ _ hk; omega
+  | succ n ih =>
+    intro k data e rest hk hd
+    cases k with
+    | zero => simp [fetchLoop, hd]
+    | succ k =>
+      simp only [List.replicate_succ, List.cons_append, fetchLoop]
+      exact ih k data e rest (by omega) hd
+
 end Afkak.Wire
